@@ -13,12 +13,15 @@ use crate::tree::{result_flat, Flat};
 
 #[derive(Clone, Copy)]
 pub struct C10 {
+    /// run the real binary as 'another process' (twice free-running, 8 shim seeds) on this model
+    pub cli: bool,
     /// light mode: only reversal of the lines + repeated evaluation (used for the deeper model)
     pub light: bool,
 }
-const FULL: C10 = C10 { light: false };
+const FULL: C10 = C10 { light: false, cli: false };
+const FULL_CLI: C10 = C10 { light: false, cli: true };
 #[allow(dead_code)]
-const LIGHT: C10 = C10 { light: true };
+const LIGHT: C10 = C10 { light: true, cli: false };
 
 pub static SCHEDULES: AtomicU64 = AtomicU64::new(0);
 pub static SITES_SEEN: AtomicU64 = AtomicU64::new(0);
@@ -327,6 +330,50 @@ impl StateCheck for C10 {
         if !seen.is_empty() {
             out.regime("hash_orders_observed");
         }
+        // 7. another process: the real binary, twice free-running and under 8 getrandom-shim seeds
+        if self.cli && crate::cli::available() {
+            let mut reports: Vec<(String, String)> = vec![];
+            for (name, seed) in [("free-running #1", None), ("free-running #2", None), ("seed 1", Some(1u64)), ("seed 2", Some(2)), ("seed 3", Some(3)), ("seed 4", Some(4)), ("seed 5", Some(5)), ("seed 6", Some(6)), ("seed 7", Some(7)), ("seed 8", Some(8))] {
+                let o = crate::cli::run(&crate::cli::sv(&["-c", "@c.csv", "-l", "PENINSULA", "-k", "0.5", "--load_matching"]), &[("c.csv", text.as_bytes())], &[], seed, std::time::Duration::from_secs(10));
+                out.evals += 1;
+                if o.status != Some(0) {
+                    reports.push((name.to_string(), format!("exit {:?}", o.status)));
+                    continue;
+                }
+                let rep = o.stdout.split("** Eficiencia energética").nth(1).unwrap_or("").to_string();
+                reports.push((name.to_string(), rep));
+            }
+            out.regime("cli_processes");
+            let split = |s: &str| -> (String, Vec<f64>) {
+                let mut skel = String::new();
+                let mut nums = vec![];
+                let mut cur = String::new();
+                for ch in s.chars() {
+                    if ch.is_ascii_digit() || ch == '.' || (ch == '-' && cur.is_empty()) {
+                        cur.push(ch);
+                    } else {
+                        if let Ok(x) = cur.parse::<f64>() {
+                            nums.push(x);
+                            skel.push('#');
+                        } else {
+                            skel.push_str(&cur);
+                        }
+                        cur.clear();
+                        skel.push(ch);
+                    }
+                }
+                (skel, nums)
+            };
+            let (s0, n0) = split(&reports[0].1);
+            for (name, r) in &reports[1..] {
+                out.compared += 1;
+                let (s1, n1) = split(r);
+                if s1 != s0 || n0.len() != n1.len() || n0.iter().zip(&n1).any(|(a, b)| (a - b).abs() > 0.011 + 1e-6 * a.abs()) {
+                    let diff = n0.iter().zip(&n1).find(|(a, b)| (*a - *b).abs() > 0.011).map(|(a, b)| format!("{a} vs {b}")).unwrap_or_else(|| "report layout differs".into());
+                    out.viol("same_results", &["process"], format!("another process ({name})"), diff, "the report of the first process");
+                }
+            }
+        }
     }
 }
 
@@ -362,7 +409,9 @@ pub fn run(ctx: &Ctx) -> i32 {
     let reduced: Vec<Letter> = alpha::flow(2, &[100, 300], Rich::Base);
     explore(ctx, &format!("TEXT bases: FLOW T=2 values {{1,3}} depth<={}", d + 1), Wide { alphabet: reduced, bases: alpha::bases(false), max_add: d + 1, repeat: false }, FULL, shared.clone());
     explore(ctx, &format!("TEXT bases: AUX/ENV systems depth<={}", d + 1), Wide { alphabet: aux_env_letters(), bases: alpha::bases(false), max_add: d + 1, repeat: false }, FULL, shared.clone());
-    explore(ctx, "TEXT bases: shipped files + <=1 line", Wide { alphabet: alpha::seeded_letters(), bases: alpha::shipped_bases(), max_add: if ctx.quick() { 0 } else { 1 }, repeat: false }, FULL, shared.clone());
+    // 'another process': the real binary on the small AUX/ENV bases and on the shipped files
+    explore(ctx, "TEXT bases as other processes (CLI x 10 runs): AUX/ENV systems depth<=2", Wide { alphabet: aux_env_letters(), bases: alpha::bases(false), max_add: if ctx.quick() { 1 } else { 2 }, repeat: false }, FULL_CLI, shared.clone());
+    explore(ctx, "TEXT bases: shipped files + <=1 line", Wide { alphabet: alpha::seeded_letters(), bases: alpha::shipped_bases(), max_add: if ctx.quick() { 0 } else { 1 }, repeat: false }, FULL_CLI, shared.clone());
     let (sch, seen, closed, big) = (SCHEDULES.load(Ordering::Relaxed), SITES_SEEN.load(Ordering::Relaxed), SITES_CLOSED.load(Ordering::Relaxed), SITES_BIG.load(Ordering::Relaxed));
     finish(
         ctx,
@@ -374,9 +423,9 @@ pub fn run(ctx: &Ctx) -> i32 {
             assumptions: strs(&[
                 "results compared with 2e-5*magnitude+1e-6 (+1e-5 relative): rewritings change summation order",
                 "closure claim only for the six hooked sites; other hash loops see the same schedules without a closure claim",
-                "'another process' is covered by the CLI leg of the thorough tier only",
+                "'another process': the real binary, twice free-running and under 8 getrandom-shim seeds, on the small AUX/ENV bases and the shipped files",
             ]),
-            required_regimes: strs(&["reorder", "split", "renumber", "id0", "decoration", "hash_orders_observed", "site_with_3_keys"]),
+            required_regimes: strs(&["reorder", "split", "renumber", "id0", "decoration", "hash_orders_observed", "site_with_3_keys", "cli_processes"]),
             extra: serde_json::json!({"hash_order_schedules_executed": sch, "site_instances_observed(>=2 keys)": seen, "site_instances_closed(all n! orders)": closed, "site_instances_with_more_than_3_keys": big, "schedule_cap_per_state": sched_cap()}),
         },
     )
